@@ -700,6 +700,20 @@ func (e *Engine) execInstr(st *State, instr ssa.Instruction) {
 		for _, a := range in.Call.Args {
 			args = append(args, st.operand(a))
 		}
+		if len(st.frames) == 1 {
+			// atcall hooks see a deferred call at the defer statement (where it is scheduled), as "defer <callee>"
+			key := "<dynamic func value>"
+			if in.Call.IsInvoke() {
+				key = methodKey(in.Call.Value.Type(), in.Call.Method.Name())
+			} else if f := in.Call.StaticCallee(); f != nil {
+				key = keyOf(f)
+			}
+			e.hookArgs = args
+			e.runHooks(st, fr, in, "defer "+key, "before")
+			if st.dead {
+				return
+			}
+		}
 		fr.defers = append(fr.defers, deferRec{call: &in.Call, fn: fnv, args: args, pos: posStr(e, in.Pos())})
 	case *ssa.Go:
 		e.abstracted["go statement (callee effects not sequenced)"] = true
